@@ -79,6 +79,10 @@ type c18Case struct {
 	// Agent.ExportGraph() added (with the returned options) to a parent chain / graph, the
 	// parent run with Invoke / Stream
 	Host string `json:"host,omitempty"`
+	// AgentConfig.ToolsConfig.UnknownToolsHandler: "" = nil (a call to a name outside the tool set
+	// fails the tools node); "echo" answers `no tool <name>(<args>)` — it depends on the name it is
+	// given; "const" always answers the same; "fail" returns an error
+	Unknown string `json:"unknown,omitempty"`
 	// implementation side only (the model does not distinguish them)
 	Indexed     bool `json:"indexed,omitempty"`     // streamed tool calls carry Index = position
 	ToolCalling bool `json:"toolCalling,omitempty"` // config.ToolCallingModel instead of config.Model
@@ -517,6 +521,30 @@ type c18Parts struct {
 	model   model.ChatModel
 	tcModel model.ToolCallingChatModel
 	tools   []tool.BaseTool
+	// the recorder of the run a call belongs to, and what to do when the call has finished
+	runOf func(ctx context.Context) (*c18Recorder, func())
+}
+
+// c18UnknownHandler is the UnknownToolsHandler of the case: it records the call like a tool does
+// (under the NAME IT WAS GIVEN) and answers by kind.
+func c18UnknownHandler(kind string, rec *c18Recorder, of func(ctx context.Context) (*c18Recorder, func())) func(ctx context.Context, name, input string) (string, error) {
+	return func(ctx context.Context, name, input string) (string, error) {
+		r, after := rec, func() {}
+		if of != nil {
+			if r, after = of(ctx); r == nil {
+				return "", errors.New("c18: unknown-tools handler called outside any scheduled run")
+			}
+		}
+		r.toolRun(c18Call{ID: compose.GetToolCallID(ctx), Name: name, Args: input})
+		defer after()
+		switch kind {
+		case "echo":
+			return "no tool " + name + "(" + input + ")", nil
+		case "const":
+			return "no such tool", nil
+		}
+		return "", fmt.Errorf("unknown-tools handler for %s: %w", name, c18ToolErr)
+	}
 }
 
 func c18Build(c *c18Case) (*c18Built, error) { return c18BuildWith(c, nil) }
@@ -548,6 +576,13 @@ func c18BuildWith(c *c18Case, parts *c18Parts) (*c18Built, error) {
 		} else {
 			cfg.ToolsConfig.Tools = append(cfg.ToolsConfig.Tools, c18Invokable{impl})
 		}
+	}
+	if c.Unknown != "" && c.Unknown != "none" {
+		var of func(ctx context.Context) (*c18Recorder, func())
+		if parts != nil {
+			of = parts.runOf
+		}
+		cfg.ToolsConfig.UnknownToolsHandler = c18UnknownHandler(c.Unknown, rec, of)
 	}
 	if len(c.RD) > 0 {
 		cfg.ToolReturnDirectly = map[string]struct{}{}
@@ -923,7 +958,32 @@ func c18Key(c *c18Case) string {
 	for _, t := range c.Tools {
 		tk = append(tk, t.Name+":"+t.Kind)
 	}
-	return fmt.Sprintf("%s|%v|%v|%d|%s|%s|%d|%s", strings.Join(shapes, ","), tk, c.RD, c.MaxStep, c.Modifier, c.Checker, len(c.Orig), c18Host(c))
+	return fmt.Sprintf("%s|%v|%v|%d|%s|%s|%d|%s", c18NamedShapes(c, shapes), tk, c.RD, c.MaxStep, c.Modifier, c.Checker, len(c.Orig), c18Host(c)+"|u="+c.Unknown)
+}
+
+// c18NamedShapes: the chunk shapes, plus — when an unknown-tools handler is configured — which
+// calls of every message go to made-up names (k = known, u = unknown)
+func c18NamedShapes(c *c18Case, shapes []string) string {
+	out := strings.Join(shapes, ",")
+	if c.Unknown == "" || c.Unknown == "none" {
+		return out
+	}
+	known := map[string]bool{}
+	for _, t := range c.Tools {
+		known[t.Name] = true
+	}
+	var sb strings.Builder
+	for i := range c.Script {
+		for _, cl := range c18Assemble(&c.Script[i]) {
+			if known[cl.Name] {
+				sb.WriteString("k")
+			} else {
+				sb.WriteString("u")
+			}
+		}
+		sb.WriteString("/")
+	}
+	return out + "|" + sb.String()
 }
 
 func c18Host(c *c18Case) string {
@@ -1166,12 +1226,19 @@ func c18Fragment(r *vh.Rand, calls []c18Call) [][]c18Call {
 	return c18CanonChunks(c18Arrange(r, per, []string{"contig", "rr-chunk", "rr-chunk", "rr-single", "random", "random"}[r.Intn(6)]))
 }
 
-func c18GenReply(r *vh.Rand, k int, ncalls int, toolNames []string, forceLate bool) c18Reply {
+// names the scripted model makes up (none of them is ever a registered tool)
+var c18MadeUp = []string{"ghost", "t1x", "serach", "T2"}
+
+// c18GenReply: ghost = per-mille of the calls that go to a made-up tool name.
+func c18GenReply(r *vh.Rand, k int, ncalls int, toolNames []string, forceLate bool, ghost int) c18Reply {
 	var calls []c18Call
 	for i := 0; i < ncalls; i++ {
 		name := toolNames[r.Intn(len(toolNames))]
-		if r.Intn(1000) < 12 {
-			name = "ghost"
+		if r.Intn(1000) < ghost {
+			name = c18MadeUp[0]
+			if ghost > 50 {
+				name = c18MadeUp[r.Intn(len(c18MadeUp))]
+			}
 		}
 		id := fmt.Sprintf("c%d_%d", k, i)
 		if r.Chance(2) && i > 0 {
@@ -1331,6 +1398,14 @@ func c18Gen(r *vh.Rand) *c18Case {
 	case r.Chance(18):
 		c.Host = "graph"
 	}
+	switch { // what happens to calls of tools that do not exist
+	case r.Chance(22):
+		c.Unknown = "echo"
+	case r.Chance(4):
+		c.Unknown = "const"
+	case r.Chance(3):
+		c.Unknown = "fail"
+	}
 	n := r.Range(1, 8)
 	if c.Host != "" && r.Chance(35) {
 		n = r.Range(5, 12) // long enough to reach compose's default step limit (nodes + 10)
@@ -1342,7 +1417,7 @@ func c18Gen(r *vh.Rand) *c18Case {
 		if (last && r.Chance(75)) || (!last && r.Chance(6)) {
 			ncalls = 0
 		}
-		c.Script = append(c.Script, c18GenReply(r, k, ncalls, names, forceLate && r.Chance(50)))
+		c.Script = append(c.Script, c18GenReply(r, k, ncalls, names, forceLate && r.Chance(50), c18Ghost(c)))
 	}
 	switch {
 	case r.Chance(15):
@@ -1363,6 +1438,38 @@ func c18Gen(r *vh.Rand) *c18Case {
 	c.ToolCalling = r.Bool()
 	c.Pipe = r.Chance(30)
 	return c
+}
+
+// c18Ghost: how often (per mille) the scripted model calls a made-up tool: rarely without a
+// handler (the run fails there), a quarter of the calls with one.
+func c18Ghost(c *c18Case) int {
+	if c.Unknown != "" && c.Unknown != "none" {
+		return 250
+	}
+	return 12
+}
+
+// c18UnknownNotLast: some assistant message of the script has a call to a made-up tool that is
+// followed (in the assembled message) by a call with a different name.
+func c18UnknownNotLast(c *c18Case, script []c18Reply) bool {
+	known := map[string]bool{}
+	for _, t := range c.Tools {
+		known[t.Name] = true
+	}
+	for i := range script {
+		calls := c18Assemble(&script[i])
+		for j, cl := range calls {
+			if known[cl.Name] {
+				continue
+			}
+			for _, later := range calls[j+1:] {
+				if later.Name != cl.Name {
+					return true
+				}
+			}
+		}
+	}
+	return false
 }
 
 // the witness of `generate_ne_stream_witness` in lean/EinoV/Props/C18.lean
@@ -1428,6 +1535,7 @@ func c18Corpus() []*c18Case {
 		}
 	}
 	out = append(out, c18DeltaCorpus(base, answer)...)
+	out = append(out, c18UnknownCorpus(base, answer)...)
 	return out
 }
 
@@ -1520,6 +1628,55 @@ func c18DeltaCorpus(base func() *c18Case, answer c18Reply) []*c18Case {
 	return out
 }
 
+// c18UnknownCorpus: one assistant message with 2-3 tool calls of which some go to names outside
+// the tool set — the made-up call first / in the middle / last / two different made-up names /
+// the same made-up name twice / all calls made up — x UnknownToolsHandler {nil, echo (answers with
+// the name it is given), const, fail} x {whole calls in one chunk, calls streamed as deltas one per
+// chunk} x host {agent, chain}; plus a made-up name in the return-directly set.
+func c18UnknownCorpus(base func() *c18Case, answer c18Reply) []*c18Case {
+	var out []*c18Case
+	layouts := [][]string{
+		{"serach", "t1"}, {"t1", "serach"}, {"t1", "serach", "t2"}, {"serach", "t1", "t2"},
+		{"lookup_user", "lookup_order"}, {"ghost", "ghost", "t1"}, {"t2", "t1x", "T2"}, {"ghost"},
+	}
+	for _, names := range layouts {
+		for _, unknown := range []string{"", "echo", "const", "fail"} {
+			for _, deltas := range []bool{false, true} {
+				for _, host := range []string{"", "chain"} {
+					if host != "" && (deltas || unknown == "const") {
+						continue
+					}
+					c := base()
+					c.Unknown, c.Host = unknown, host
+					var calls []c18Call
+					for k, n := range names {
+						calls = append(calls, c18Call{ID: fmt.Sprintf("u%d", k), Name: n, Args: fmt.Sprintf("{\"q\":%d}", k)})
+					}
+					first := c18Reply{Chunks: []c18Chunk{{Content: "", Calls: calls}}}
+					if deltas {
+						first = c18Reply{}
+						for k, cl := range calls {
+							i := k
+							head, tail := cl, c18Call{Index: &i, Args: cl.Args[3:]}
+							head.Index, head.Args = &i, cl.Args[:3]
+							first.Chunks = append(first.Chunks, c18Chunk{Calls: []c18Call{head}}, c18Chunk{Calls: []c18Call{tail}})
+						}
+					}
+					c.Script = []c18Reply{first, answer}
+					out = append(out, c)
+				}
+			}
+		}
+	}
+	for _, unknown := range []string{"", "echo"} {
+		c := base()
+		c.Unknown, c.RD = unknown, []string{"serach"}
+		c.Script = []c18Reply{{Chunks: []c18Chunk{{Content: "", Calls: []c18Call{{ID: "u0", Name: "t1", Args: "{}"}, {ID: "u1", Name: "serach", Args: "{\"q\":1}"}, {ID: "u2", Name: "t2", Args: "{}"}}}}}, answer}
+		out = append(out, c)
+	}
+	return out
+}
+
 // ---- one case ----
 
 func c18Shape(c *c18Case) string {
@@ -1532,6 +1689,9 @@ func c18Shape(c *c18Case) string {
 			rd += ":indexed-deltas" // some turn streams its tool calls as deltas keyed by Index
 			break
 		}
+	}
+	if c.Unknown != "" && c.Unknown != "none" {
+		rd += ":unknown-tools-handler=" + c.Unknown
 	}
 	if c.Host != "" && c.Host != "agent" {
 		return fmt.Sprintf("checker=%s:%s:host=%s", c.Checker, rd, c.Host)
@@ -1624,6 +1784,7 @@ func c18Check(ctx *vh.Ctx, c *c18Case, raw json.RawMessage, topoModel map[bool]j
 	ctx.Res.Dist(fmt.Sprintf("late-toolcall-reply=%v", late))
 	ctx.Res.Dist(fmt.Sprintf("metadata-only-head-before-toolcall=%v", metaHead))
 	ctx.Res.Dist("host=" + c18Host(c))
+	ctx.Res.Dist(fmt.Sprintf("unknown-tools-handler=%s:made-up-call-before-a-differently-named-call=%v", map[bool]string{true: "nil", false: c.Unknown}[c.Unknown == "" || c.Unknown == "none"], c18UnknownNotLast(c, c.Script)))
 	ctx.Res.Dist(fmt.Sprintf("toolcall-deltas:fragmented=%v:interleaved-across-indexes=%v:with-unindexed-call=%v", fragmented, interleaved, mixed))
 	if model.Limit != nil && c18Host(c) != "agent" {
 		// does the script distinguish MaxStep from compose's default (nodes + 10)?
@@ -1705,7 +1866,7 @@ func c18Check(ctx *vh.Ctx, c *c18Case, raw json.RawMessage, topoModel map[bool]j
 }
 
 func runC18(ctx *vh.Ctx) error {
-	ctx.Res.Rule = "random ReAct scripts: 1-8 (hosted: up to 12) replies with 0-3 tool calls streamed in 1-9 chunks (40% of the tool-calling turns as deltas keyed by Index: head with id and name, arguments in 1-3 pieces, id / name now and then repeated, indexes ascending / descending / with gaps / permuted, one call now and then whole without Index, the deltas of the calls back to back / one per call per chunk / one per chunk round-robin / merged at random; empty leading/middle chunks, chunks carrying only provider metadata — Extra entries / ResponseMeta usage, finish reason / Name — in front of, between and on content and tool-call chunks, calls in the first non-empty chunk / spread / behind content), 1-4 tools (echo/const/fail, invokable/streamable, unknown names, duplicate and empty call ids), return-directly sets, MaxStep <0/0/1-30, MessageModifier off/system/tail, default or whole-stream checker; host = Agent.Generate/Stream, or the graph from Agent.ExportGraph() added with its options to a parent chain / parent graph run with Invoke/Stream; both modes on the real agent vs the Lean model (model inputs, node executions, result/error class), Generate vs Stream, graph topology via compile callback; a systematic corpus first (looping and long scripts x MaxStep below/at/above compose's default x host; one metadata-only head chunk per metadata kind; 2-3 parallel calls as deltas x arrangement x index order x checker / host / return-directly / repeated id / unindexed call); family shared-input (12% of the random cases + a corpus of 280): 1-3 runs with scripts of their own started from ONE message slice whose backing array has 0-8 spare cells behind its length, Generate / Stream mixed, one agent for all or one per run, every run parked at the end of each model call and tools round and released in a scripted order (then round-robin) so that exactly one run moves at a time; per run model inputs / node executions / result vs the Lean heap model (= the run alone), and the caller's backing array cell by cell; non-trivial = at least one tools round or the step limit was hit; distinct by (chunk shapes of every reply, tools, return-directly set, MaxStep, modifier, checker, #orig, host)"
+	ctx.Res.Rule = "random ReAct scripts: 1-8 (hosted: up to 12) replies with 0-3 tool calls streamed in 1-9 chunks (40% of the tool-calling turns as deltas keyed by Index: head with id and name, arguments in 1-3 pieces, id / name now and then repeated, indexes ascending / descending / with gaps / permuted, one call now and then whole without Index, the deltas of the calls back to back / one per call per chunk / one per chunk round-robin / merged at random; empty leading/middle chunks, chunks carrying only provider metadata — Extra entries / ResponseMeta usage, finish reason / Name — in front of, between and on content and tool-call chunks, calls in the first non-empty chunk / spread / behind content), 1-4 tools (echo/const/fail, invokable/streamable, unknown names, duplicate and empty call ids), return-directly sets, ToolsConfig.UnknownToolsHandler nil (1.2% of the calls go to a made-up name: the run fails) / echoing the name it is given / constant / failing (29% of the cases; then 25% of the calls go to one of 4 made-up names, at any position of multi-call messages), MaxStep <0/0/1-30, MessageModifier off/system/tail, default or whole-stream checker; host = Agent.Generate/Stream, or the graph from Agent.ExportGraph() added with its options to a parent chain / parent graph run with Invoke/Stream; both modes on the real agent vs the Lean model (model inputs, node executions, result/error class), Generate vs Stream, graph topology via compile callback; a systematic corpus first (looping and long scripts x MaxStep below/at/above compose's default x host; one metadata-only head chunk per metadata kind; 2-3 parallel calls as deltas x arrangement x index order x checker / host / return-directly / repeated id / unindexed call; 114 messages with made-up tool names first / in the middle / last / twice / only x handler nil / echo / const / fail x whole / deltas x host); family shared-input (12% of the random cases + a corpus of 280): 1-3 runs with scripts of their own started from ONE message slice whose backing array has 0-8 spare cells behind its length, Generate / Stream mixed, one agent for all or one per run, every run parked at the end of each model call and tools round and released in a scripted order (then round-robin) so that exactly one run moves at a time; per run model inputs / node executions / result vs the Lean heap model (= the run alone), and the caller's backing array cell by cell; non-trivial = at least one tools round or the step limit was hit; distinct by (chunk shapes of every reply, tools, return-directly set, MaxStep, modifier, checker, #orig, host)"
 	topoModel := map[bool]json.RawMessage{}
 	for _, rd := range []bool{false, true} {
 		raw, err := ctx.Oracle.Ask("C18", map[string]any{"kind": "topology", "rd": rd})
